@@ -104,7 +104,9 @@ fn apply_patch_with_data(
             let new_byte = apply_diff_byte(old_byte, diff_byte);
 
             output.push(new_byte);
-            old_pos += 1;
+            // Seeks may have saturated the position at usize::MAX (reads
+            // beyond EOF are zeros): advancing from there must not overflow
+            old_pos = old_pos.saturating_add(1);
         }
 
         // Copy extra block
@@ -300,7 +302,9 @@ impl<R: Read + Seek> ZbsdiffPatcher<R> {
                 output.push(apply_diff_byte(*old_byte, *diff_byte));
             }
 
-            *old_pos += chunk_size;
+            // Seeks may have saturated the position at usize::MAX (reads
+            // beyond EOF are zeros): advancing from there must not overflow
+            *old_pos = old_pos.saturating_add(chunk_size);
             remaining -= chunk_size;
         }
 
